@@ -19,7 +19,7 @@ ID = "C17"
 RULE = (
     "primitive cases: origin kind in {mainstream, metered in, metered out, simplified limited} x engine in {numpy "
     "(1,)-arrays, casadi DM, SX function, MX function} x (w, d, control, rho_first, v_first, parameters) with corner "
-    "bias (w=0, d=0, r in {0,1}, rho_first in {rho_crit, rho_max}, v_first=0, limit +inf). network cases: valid "
+    "bias (w=0, d=0, r in {0,1}, rho_first in {rho_crit, rho_max}, v_first=0, limit +inf, limiting speed exactly equal to the critical speed). network cases: valid "
     "growth-grammar network with queued origins x admissible state; NumPy step (flow recovered from w+ and from the "
     "fed link's density balance) and compiled function with more_out (q_o, w+). Non-trivial = a corner value is "
     "present or two of the limits (demand+queue/T, capacity, space, desired flow) are within 1% of each other. "
@@ -43,7 +43,17 @@ def prim_cases(draw):
              T=draw(pos(1, 60)) / 3600, C=draw(pos(200, 5000)), w=draw(fl(0, 500)), d=draw(fl(0, 8000)),
              rho_first=draw(fl(0, rho_max, (rho_crit, rho_max))), v_first=draw(fl(0, 1.5 * v_free, (v_free,))))
     k = A["kind"]
-    A["ctrl"] = draw(fl(0, 200, (math.inf,))) if k == "main" else draw(fl(0, 1, (1,))) if k.startswith("ramp") else draw(fl(0, 6000, (math.inf,)))
+    if k == "main" and draw(st.integers(0, 4)) == 0:
+        # exact tie: the limiting speed equals the critical speed as the engines themselves compute it
+        vc = [float(np.asarray(NumpyEngine().links.Veq(rho_crit, v_free, rho_crit, A["a"]))),
+              float(CasadiEngine("SX").links.Veq(cs.DM(rho_crit), v_free, rho_crit, A["a"]))]
+        tie = draw(st.sampled_from(vc))
+        if draw(st.booleans()):
+            A["v_first"] = tie
+        else:
+            A["v_first"] = max(A["v_first"], tie)
+            A["tie_ctrl"] = tie
+    A["ctrl"] = A.pop("tie_ctrl") if "tie_ctrl" in A else draw(fl(0, 200, (math.inf,))) if k == "main" else draw(fl(0, 1, (1,))) if k.startswith("ramp") else draw(fl(0, 6000, (math.inf,)))
     if draw(st.integers(0, 3)) == 0:  # make two limits coincide
         supply = A["d"] + A["w"] / A["T"]
         if k != "main" and supply > 0:
